@@ -59,3 +59,45 @@ def run_lifetime(binary, root, script, timeout=120):
             except ValueError:
                 out.append((int(m.group(1)), m.group(2)))
     return p.returncode, out, p.stderr[-2000:]
+
+
+def _rows(resp, drop=("timestamp", "event_id")):
+    """rows of one QUERY answer as a sorted list of sorted (column, text) tuples; None when it is not a row answer"""
+    if not isinstance(resp, str) or ('"type":"end"' not in resp and '"type":"batch"' not in resp):
+        return None
+    cols, rows = [], []
+    for line in resp.splitlines():
+        try:
+            j = json.loads(line)
+        except ValueError:
+            continue
+        if j.get("type") == "schema":
+            cols = [c["name"] for c in j["columns"]]
+        if j.get("type") == "batch":
+            for x in j["rows"]:
+                d = dict(zip(cols, x))
+                for k in drop:
+                    d.pop(k, None)
+                rows.append(tuple(sorted((k, json.dumps(v)) for k, v in d.items())))
+    return sorted(rows)
+
+
+def memory_vs_segment(binary, setup, queries, capacity=50, timeout=120):
+    """runs `setup` (DEFINE / STORE commands, ';'-separated) then `queries` twice on the real engine - once with the
+    events still in the memtable, once after FLUSH - and returns [(query, rows_in_memory, rows_from_segment)];
+    a rows value is None when the engine did not answer with rows"""
+    import shutil
+    import tempfile
+    res = []
+    for flush in (False, True):
+        root = tempfile.mkdtemp(prefix="verif-hist-")
+        try:
+            write_config(root, capacity=capacity, shards=1)
+            pre = setup.rstrip("; ") + ("; FLUSH; !wait; !sleep 500; " if flush else "; !sleep 300; PING; ")
+            n = len([x for x in pre.split(";") if x.strip()])
+            rc, out, err = run_lifetime(binary, root, pre + "; ".join(queries), timeout=timeout)
+            got = dict(out)
+            res.append([_rows(got.get(n + j)) for j in range(len(queries))])
+        finally:
+            shutil.rmtree(root, ignore_errors=True)
+    return [(q, res[0][j], res[1][j]) for j, q in enumerate(queries)]
